@@ -518,3 +518,43 @@ def fixed_arity_unpacks(ctx, rule, scope):
                           "unpacking %s.split(%s, ..) into a fixed number of names raises ValueError when the separator is absent from "
                           "the received text" % (recv, src(sep)))
     return n
+
+
+CONSUMERS = {   # the only functions that take bytes off a receive buffer, each judged by its own T1-consume/T1-wait instance
+    "parseLine": "del raw[:index] after an end of line was found",
+    "parseLeader": "del raw[:index] after an end of line was found",
+    "parseChunk": "del raw[:size] once the chunk is complete",
+    "parseBom": "del raw[:size] for a complete, matching BOM",
+    "Respondent.parseBody": "fixed-length body / read-until-close body",
+    "Requestant.parseBody": "fixed-length body",
+    "EventSource.parseEvents": "drops the LF of a CRLF that was split across two receives (judged by C33 T9-crlf)",
+}
+
+
+def buffer_consumers(ctx, rule):
+    """T4: who may remove bytes from the receive buffers (raw / self.raw / self.msg): only the parser primitives, whose
+    deletions are tied to a completed unit.  A deletion anywhere else (an event loop dropping a byte it believes to be the
+    second half of a CRLF, a service routine trimming the buffer) is decided on state the primitives do not see."""
+    k = 0
+    for modn in ("aio.http.httping", "aio.http.clienting", "aio.http.serving"):
+        m = ctx.repo.mod(modn)
+        ctx.consulted.add(m.relpath)
+        for holder, prefix in [(m.tree, "")] + [(c, c.name + ".") for c in m.tree.body if isinstance(c, ast.ClassDef)]:
+            for fn in [x for x in holder.body if isinstance(x, ast.FunctionDef)]:
+                sites = []
+                for x in ast.walk(fn):
+                    if isinstance(x, ast.Delete):
+                        sites += [t for t in x.targets if isinstance(t, ast.Subscript) and src(t.value) in BUFFERS]
+                    elif isinstance(x, ast.Call) and isinstance(x.func, ast.Attribute) and x.func.attr in ("pop", "clear", "remove") and \
+                            src(x.func.value) in BUFFERS:
+                        sites.append(x)
+                    elif isinstance(x, ast.Subscript) and isinstance(x.ctx, ast.Store) and isinstance(x.slice, ast.Slice) and src(x.value) in BUFFERS:
+                        sites.append(x)
+                for sx in sites:
+                    k += 1
+                    q = prefix + fn.name
+                    ctx.check(q in CONSUMERS, rule, sx, "%s removes bytes from %s: %s" % (q, src(sx.value if isinstance(sx, ast.Subscript) else sx.func.value), src(sx)[:40]),
+                              "bytes leave the receive buffer outside the parser primitives: whether they belong to the next unit "
+                              "depends on how the stream was cut into receives (a byte dropped as `the LF of a split CRLF` long after "
+                              "that CR, a trimmed prefix), so the same stream parses differently for different splits")
+    return k
